@@ -3,6 +3,7 @@
 mod c_alu;
 mod c_bus;
 mod c_flow;
+mod c_isa;
 mod c_mach;
 mod gen;
 mod out;
@@ -29,6 +30,7 @@ fn main() {
         "c09drill" => c_flow::drill(&mut out, &extra),
         "c15" => c_flow::run_c15(&mut out, seed, thorough),
         "c10" => c_bus::run(&mut out, seed, thorough),
+        "c01" => c_isa::run_c01(&mut out, seed, thorough),
         "c05" => c_mach::run_c05(&mut out, seed, thorough),
         "c07" => c_mach::run_c07(&mut out, seed, thorough),
         "c11" => c_mach::run_c11(&mut out, seed, thorough),
